@@ -73,6 +73,10 @@ imb_quic_aes_gcm(IMB_MGR *state, const struct gcm_key_data *key_data,
                 imb_set_errno(state, IMB_ERR_NULL_AUTH);
                 return;
         }
+        if (len_array == NULL) {
+                imb_set_errno(state, IMB_ERR_CIPH_LEN);
+                return;
+        }
         for (n = 0; n < num_packets; n++) {
                 if (dst_ptr_array[n] == NULL && len_array[n] != 0) {
                         imb_set_errno(state, IMB_ERR_NULL_DST);
